@@ -912,4 +912,8 @@ class SchedulingSolver(BaseModelWithJson):
         if not self._initialized:
             self.initialize()
         with open(smt_filename, "w", encoding="utf-8") as outfile:
-            outfile.write(self._solver.to_smt2())
+            if isinstance(self._solver, z3.Optimize):
+                # the z3 Optimize class has no to_smt2 method
+                outfile.write(self._solver.sexpr())
+            else:
+                outfile.write(self._solver.to_smt2())
